@@ -79,6 +79,15 @@ fn restricted(block: &[fol::Variable], cs: &[&fol::Formula]) -> bool {
     }
 }
 
+pub fn quantified_variables(f: &fol::Formula) -> usize {
+    match f {
+        fol::Formula::AtomicFormula(_) => 0,
+        fol::Formula::UnaryFormula { formula, .. } => quantified_variables(formula),
+        fol::Formula::BinaryFormula { lhs, rhs, .. } => quantified_variables(lhs) + quantified_variables(rhs),
+        fol::Formula::QuantifiedFormula { quantification, formula } => quantification.variables.len() + quantified_variables(formula),
+    }
+}
+
 pub fn exactly_evaluable(f: &fol::Formula) -> bool {
     match f {
         fol::Formula::AtomicFormula(_) => true,
@@ -221,6 +230,18 @@ pub fn corpus(deep: bool) -> Vec<String> {
     for a in props { for o in ops { for b in props { out.push(format!("{a} {o} {b}")); } } }
     let small: Vec<String> = { let mut v = Vec::new(); for a in ["p", "q"] { for o in ["->", "<-", "and", "<->"] { for b in ["p", "q", "r"] { v.push(format!("({a} {o} {b})")); } } } v };
     for a in &small { for o in ops { for b in &small { out.push(format!("{a} {o} {b}")); } } }
+    // long formulas: many rewriting passes are needed before the fixpoint strategy stops
+    let n = 40;
+    out.push((1..=n).map(|i| format!("exists X{i} (p(X{i}))")).collect::<Vec<_>>().join(" and "));
+    out.push((1..=n).map(|i| format!("exists X{i} (q(X{i}, Y))")).collect::<Vec<_>>().join(" and ") + " and p(Y)");
+    out.push(format!("exists {} ({} and p(X{n}))", (1..=n).map(|i| format!("X{i}")).collect::<Vec<_>>().join(" "), (1..n).map(|i| format!("X{i} = X{}", i + 1)).collect::<Vec<_>>().join(" and ")));
+    out.push(format!("exists {} (X1 = Y and {} and p(X{n}))", (1..=n).map(|i| format!("X{i}")).collect::<Vec<_>>().join(" "), (1..n).map(|i| format!("X{} = X{i}", i + 1)).collect::<Vec<_>>().join(" and ")));
+    out.push(format!("{}p", "not ".repeat(71)));
+    out.push(format!("{}p{}", "(".repeat(n), " and #true)".repeat(n)));
+    out.push(format!("{}p{}", "(#false or ".repeat(n), ")".repeat(n)));
+    out.push((1..=n).fold("p(Y)".to_string(), |acc, i| format!("exists X{i} (p(X{i}) and {acc})")));
+    out.push((1..=n).fold("p(Y)".to_string(), |acc, i| format!("forall X{i} (p(X{i}) -> {acc})")));
+    out.push((1..=12).fold("q".to_string(), |acc, i| format!("(p(X) and {acc} <- r) and (exists Z{i} (Z{i} = X and q(Z{i})))")));
     let mut g = Gen { rng: Rng(0x5eed_c07) };
     let n = if deep { 20000 } else { 1200 };
     for i in 0..n {
@@ -268,7 +289,7 @@ pub fn check(deep: bool, stats: &mut SimpStats, fails: &mut Vec<Failure>) {
     let mut inputs: Vec<(String, fol::Formula)> = Vec::new();
     for t in &corpus {
         match fol::Formula::from_str(t) {
-            Ok(f) => { if exactly_evaluable(&f) { inputs.push((t.clone(), f)); } else { stats.skipped_inexact += 1; } }
+            Ok(f) => { if quantified_variables(&f) > 12 || exactly_evaluable(&f) { inputs.push((t.clone(), f)); } else { stats.skipped_inexact += 1; } }
             Err(_) => {}
         }
     }
@@ -318,6 +339,9 @@ pub fn check(deep: bool, stats: &mut SimpStats, fails: &mut Vec<Failure>) {
                     return Some(Failure { property: "C07", input: format!("{what}: {src}"), detail: format!("output `{fout}` has the free variable {} that the input does not have", v.0) });
                 }
                 if fin == fout { return None; }
+                // the long formulas are in the corpus for the pass count of the fixpoint strategy; evaluating dozens of nested
+                // quantifiers is exponential, so only the checks above and the idempotence check apply to them
+                if quantified_variables(fin) > 12 { return None; }
                 if !exactly_evaluable(fout) { return Some(Failure { property: "skip", input: String::new(), detail: String::new() }); }
                 let (ein, eout) = (cheapest_first(fin), cheapest_first(fout));
                 let seed = src.bytes().fold(0xcbf29ce484222325u64, |h, b| (h ^ b as u64).wrapping_mul(0x100000001b3));
@@ -354,7 +378,7 @@ pub fn check_gamma(deep: bool, stats: &mut SimpStats, fails: &mut Vec<Failure>) 
     let corpus = corpus(deep);
     let mut inputs: Vec<(String, fol::Formula)> = Vec::new();
     for t in &corpus {
-        if let Ok(f) = fol::Formula::from_str(t) { if exactly_evaluable(&f) { inputs.push((t.clone(), f)); } else { stats.skipped_inexact += 1; } }
+        if let Ok(f) = fol::Formula::from_str(t) { if quantified_variables(&f) > 12 { continue; } if exactly_evaluable(&f) { inputs.push((t.clone(), f)); } else { stats.skipped_inexact += 1; } }
     }
     stats.formulas = inputs.len();
     let text: String = inputs.iter().map(|(t, _)| format!("{t}.\n")).collect();
